@@ -611,13 +611,15 @@ func (h TXN) Execute(t *testing.T, sc *core.Scenario) *core.Result {
 			if h.Prop != "C22" {
 				continue
 			}
+			// (decided before the model opens a transaction: a step that executes no statement must not
+			// give the model a snapshot the engine does not have)
+			if op.A == 1 && ((m.active && !m.head1Exists) || (!m.active && !head1Exists)) {
+				continue
+			}
 			ensureTxn(i)
 			q, want, what := "SELECT pk, a, b, c FROM kv AS OF 'HEAD'", m.head, "HEAD"
 			switch op.A {
 			case 1:
-				if !m.head1Exists {
-					continue
-				}
 				q, want, what = "SELECT pk, a, b, c FROM kv AS OF 'HEAD~1'", m.head1, "HEAD~1"
 			case 2:
 				q, what = "SELECT pk, a, b, c FROM `test/main`.kv AS OF 'HEAD'", "`test/main` AS OF HEAD"
